@@ -44,12 +44,12 @@ func fmtScaled(v *big.Int, fd int) string {
 	return out
 }
 
-// identity hierarchy: m0 { b0; d1 <- b0; d2 <- d1; other }  m1 { e1 <- m0:d1; e2 <- e1; u1 }
+// identity hierarchy: m0 { b0; d1 <- b0; d2 <- d1 (obsolete); other }  m1 { e1 <- m0:d1; e2 <- e1 (deprecated); u1 }
 func modules(t *sg.TypeSpec, hops int) []*sg.Mod {
-	m0 := &sg.Mod{Name: "m0", Prefix: "m0", Identities: []*sg.Identity{{Name: "b0"}, {Name: "d1", Base: "b0"}, {Name: "d2", Base: "d1"}, {Name: "other"}},
+	m0 := &sg.Mod{Name: "m0", Prefix: "m0", Identities: []*sg.Identity{{Name: "b0"}, {Name: "d1", Base: "b0"}, {Name: "d2", Base: "d1", Status: "obsolete"}, {Name: "other"}},
 		Nodes: []*sg.Node{{Kind: "container", Name: "m0-top", Kids: []*sg.Node{{Kind: "leaf", Name: "x", Type: &sg.TypeSpec{Name: "string"}}}}}}
 	m1 := &sg.Mod{Name: "m1", Prefix: "m1", Imports: []sg.Import{{Mod: "m0", Prefix: "m0"}},
-		Identities: []*sg.Identity{{Name: "e1", Base: "m0:d1"}, {Name: "e2", Base: "e1"}, {Name: "u1"}, {Name: "lb"}, {Name: "l1", Base: "lb"}},
+		Identities: []*sg.Identity{{Name: "e1", Base: "m0:d1"}, {Name: "e2", Base: "e1", Status: "deprecated"}, {Name: "u1"}, {Name: "lb"}, {Name: "l1", Base: "lb"}},
 		Nodes:      []*sg.Node{{Kind: "container", Name: "m1-top", Kids: []*sg.Node{{Kind: "leaf", Name: "v", Type: t}}}}}
 	// the same type reached by reference: value space, messages and app-tags must be those of the definition
 	// with hops, the last pattern of a string type may move from the innermost typedef to the leaf's own refinement of
@@ -187,7 +187,12 @@ func (g *gen) typ(depth int) *sg.TypeSpec {
 		case 1:
 			return &sg.TypeSpec{Name: "empty"}
 		default:
-			return &sg.TypeSpec{Name: "enumeration", Enums: []string{"one", "two words", "Three", "x-1"}[:1+g.pick(4, "nenum")]}
+			// a deprecated or obsolete enum is still a name of the declared set
+			t := &sg.TypeSpec{Name: "enumeration", Enums: []string{"one", "two words", "Three", "x-1"}[:1+g.pick(4, "nenum")]}
+			for range t.Enums {
+				t.EnumStat = append(t.EnumStat, []string{"", "", "current", "deprecated", "obsolete"}[g.pick(5, "enumstatus")])
+			}
+			return t
 		}
 	case 7:
 		return &sg.TypeSpec{Name: "identityref", Base: []string{"m0:b0", "m0:d1", "e1", "lb"}[g.pick(4, "base")]}
